@@ -534,7 +534,7 @@ Lemma clone_inherits c a M Ls lp sp :
   In lp Ls -> clone_of c lp sp ->
   slide_eff c a M Ls sp = layout_eff c a M (first_with_idx Ls lp).
 Proof.
-  intros Hin [p [Hlp Hc]]. unfold slide_eff. rewrite (cloned_own c p sp a Hc).
+  intros Hin [p [Hlp Hc]]. unfold slide_eff, slide_inh. rewrite (cloned_own c p sp a Hc).
   destruct Hc as [[p' [Hsp Hk]] _]. rewrite Hsp.
   unfold first_with_idx, sh_idx. rewrite Hlp, (key_idx _ _ Hk).
   destruct (layout_get Ls (ph_idx p)) as [x|] eqn:E; [reflexivity|].
@@ -579,20 +579,20 @@ Lemma layout_eff_master c a M lp p bt :
   own a lp = None -> s_ph lp = Some p -> assoc (ph_type p) (c_lmmap c) = Some bt ->
   layout_eff c a M lp = Ok (match master_get M bt with Some mp => own a mp | None => None end).
 Proof.
-  unfold layout_eff, dict_get. intros -> -> ->. cbn [bind]. destruct (master_get M bt); reflexivity.
+  unfold layout_eff, layout_inh, dict_get. intros -> -> ->. cbn [bind]. destruct (master_get M bt); reflexivity.
 Qed.
 
 Lemma layout_eff_keyerr c a M lp p :
   own a lp = None -> s_ph lp = Some p -> has_key (ph_type p) (c_lmmap c) = false ->
   layout_eff c a M lp = Err KeyErr.
 Proof.
-  unfold layout_eff. intros -> -> Hk. apply dict_get_keyerr_iff in Hk. rewrite Hk. reflexivity.
+  unfold layout_eff, layout_inh. intros -> -> Hk. apply dict_get_keyerr_iff in Hk. rewrite Hk. reflexivity.
 Qed.
 
 Lemma layout_eff_err c a M lp e : layout_eff c a M lp = Err e ->
   e = KeyErr /\ own a lp = None /\ exists p, s_ph lp = Some p /\ has_key (ph_type p) (c_lmmap c) = false.
 Proof.
-  unfold layout_eff. destruct (own a lp); [discriminate|]. destruct (s_ph lp) as [p|]; [|discriminate].
+  unfold layout_eff, layout_inh. destruct (own a lp); [discriminate|]. destruct (s_ph lp) as [p|]; [|discriminate].
   destruct (dict_get (ph_type p) (c_lmmap c)) as [bt|e'] eqn:E; cbn [bind].
   - destruct (master_get M bt); discriminate.
   - intros H; inversion H; subst. apply dict_get_err in E. destruct E as [-> Hk]. eauto.
@@ -604,7 +604,7 @@ Lemma slide_eff_unset c a M Ls sp p :
   s_ph sp = Some p -> own a sp = None ->
   slide_eff c a M Ls sp =
   match layout_get Ls (ph_idx p) with Some lp => layout_eff c a M lp | None => Ok None end.
-Proof. unfold slide_eff. intros -> ->. reflexivity. Qed.
+Proof. unfold slide_eff, slide_inh. intros -> ->. reflexivity. Qed.
 
 Lemma slide_eff_own c a M Ls sp v : own a sp = Some v -> slide_eff c a M Ls sp = Ok (Some v).
 Proof. unfold slide_eff. intros ->. reflexivity. Qed.
@@ -682,7 +682,7 @@ Qed.
 Lemma notes_clone_inherits c a NM mp sp :
   In mp NM -> clone_of c mp sp -> notes_eff a NM sp = own a (first_with_type NM mp).
 Proof.
-  intros Hin [p [Hmp Hc]]. unfold notes_eff. rewrite (cloned_own c p sp a Hc).
+  intros Hin [p [Hmp Hc]]. unfold notes_eff, notes_inh. rewrite (cloned_own c p sp a Hc).
   destruct Hc as [[p' [Hsp Hk]] _]. rewrite Hsp.
   unfold first_with_type, sh_type. rewrite Hmp, (key_type _ _ Hk).
   destruct (master_get NM (ph_type p)) as [x|] eqn:E; [reflexivity|].
@@ -795,17 +795,17 @@ Proof.
     + apply Hsame; reflexivity.
   - destruct tg as [s i|s i|l i|m i|i].
     + destruct (nth_error (d_slides d) s) as [sl|]; [|intros H; inversion H; subst; apply Hsame; reflexivity].
-      destruct (edit_tree (sl_shapes sl) i e) as [t r0]. intros H; inversion H; subst.
+      destruct (edit_tree _ (sl_shapes sl) i e) as [t r0]. intros H; inversion H; subst.
       eapply Hupd; [|reflexivity]. reflexivity.
     + destruct (nth_error (d_slides d) s) as [sl|]; [|intros H; inversion H; subst; apply Hsame; reflexivity].
       destruct (sl_notes sl) as [nt|]; [|intros H; inversion H; subst; apply Hsame; reflexivity].
-      destruct (edit_tree nt i e) as [t r0]. intros H; inversion H; subst.
+      destruct (edit_tree _ nt i e) as [t r0]. intros H; inversion H; subst.
       eapply Hupd; [|reflexivity]. reflexivity.
     + destruct (nth_error (d_layouts d) l) as [L|]; [|intros H; inversion H; subst; apply Hsame; reflexivity].
-      destruct (edit_tree (l_shapes L) i e) as [t r0]. intros H; inversion H; subst. apply Hsame; reflexivity.
+      destruct (edit_tree _ (l_shapes L) i e) as [t r0]. intros H; inversion H; subst. apply Hsame; reflexivity.
     + destruct (nth_error (d_masters d) m) as [M|]; [|intros H; inversion H; subst; apply Hsame; reflexivity].
-      destruct (edit_tree M i e) as [t r0]. intros H; inversion H; subst. apply Hsame; reflexivity.
-    + destruct (edit_tree (the_notes_master d) i e) as [t r0]. intros H; inversion H; subst. apply Hsame; reflexivity.
+      destruct (edit_tree _ M i e) as [t r0]. intros H; inversion H; subst. apply Hsame; reflexivity.
+    + destruct (edit_tree _ (the_notes_master d) i e) as [t r0]. intros H; inversion H; subst. apply Hsame; reflexivity.
   - destruct (nth_error (d_slides d) s) as [sl|]; intros H; inversion H; subst.
     + eapply Hupd; [|reflexivity]. reflexivity.
     + apply Hsame; reflexivity.
